@@ -943,3 +943,21 @@ package orda
 //@   ensures[a-null-value-is-refused-and-issues-nothing] !(forall v in values :: v != nil) ==> result1 != nil && G.sentences == old(G.sentences)
 //@   modifies *
 
+
+// Snapshot export (C10). What a restored instance looks like depends on encoding/json applied to the exported
+// structure; no contract within reach states what that library does, so the round trip is checked by a bounded
+// stand-in on the real code (/verif/bounded/snaprt_test.go: export, import into a fresh instance, same value, same
+// re-export, same answers to a continuation of remote and local operations). The import side (UnmarshalJSON of List
+// and Map) is under contract above.
+//@ func (*listSnapshot).MarshalJSON
+//@   bounded snaprt the round trip goes through encoding/json, whose behaviour no contract states
+//@   props C10
+//@ func (*mapSnapshot).MarshalJSON
+//@   bounded snaprt the round trip goes through encoding/json, whose behaviour no contract states
+//@   props C10
+//@ func (*counterSnapshot).MarshalJSON
+//@   bounded snaprt the round trip goes through encoding/json, whose behaviour no contract states
+//@   props C10
+//@ func (*counterSnapshot).UnmarshalJSON
+//@   bounded snaprt the round trip goes through encoding/json, whose behaviour no contract states
+//@   props C10
